@@ -36,6 +36,14 @@ pub fn monitor(out: &RunOut) -> MonOut {
             if c.result.is_some() {
                 m.count("R2.results_delivered");
             }
+            // bounded progress: a check that is still open when the run's step budget is used up and
+            // has sent request after request is not going to end (livelock while the service is down)
+            if opened && c.result.is_none() && l.end_why == "step_limit" {
+                let sent = (c.start..c.end).filter(|i| matches!(h[*i].kind, Kind::HttpSend { .. })).count();
+                if sent > 12 {
+                    m.viol(p, "R2", format!("L{}@{}", c.life, c.start), format!("an opened check sent {sent} requests and never delivered a result (step budget used up): it does not terminate"));
+                }
+            }
         }
         if l.end_why == "stuck" && l.mode_start && out.panic.is_none() {
             // continuous operation must always have something pending
